@@ -69,7 +69,10 @@ structure St where
   store : Store
   secs  : Nat → Nat        -- field `seconds` (uint32) of instance i; 0 until `SetExpire`
 
-def St.init : St := { store := Store.empty, secs := fun _ => 0 }
+/-- the empty store with boundary convention `g` -/
+def St.initG (g : Nat) : St := { store := Store.emptyG g, secs := fun _ => 0 }
+
+def St.init : St := St.initG 0
 
 def updN (f : Nat → Nat) (i v : Nat) : Nat → Nat := fun j => if j = i then v else f j
 
